@@ -113,3 +113,7 @@ def ciset (j : Json) : Except String Json := do
              ("spec", arr (ssnapSpec pr m Json.null :: srunSpec pr m ops))])
 
 end Pybtex.Drv.C13
+
+namespace Pybtex.Drv.C13
+def handlers : List (String × (Json → Except String Json)) := [("cimap", cimap), ("ciset", ciset)]
+end Pybtex.Drv.C13
